@@ -18,6 +18,10 @@ type printer struct {
 	output io.Writer
 	state  printerState
 	last   []byte
+
+	// lastSynthetic is true when the last chunk written did not come from a
+	// token produced by the scanner
+	lastSynthetic bool
 }
 
 func NewPrinter(output io.Writer) *printer {
@@ -73,6 +77,7 @@ func (p *printer) printSeparatedList(list []ast.Vertex, separators []*token.Toke
 		if k < len(separators) {
 			p.printToken(separators[k], defaultSeparator)
 		} else if k < len(list)-1 {
+			p.lastSynthetic = true
 			p.write(defaultSeparator)
 		}
 	}
@@ -84,6 +89,9 @@ func (p *printer) printToken(t *token.Token, def []byte) {
 	}
 
 	if t == nil {
+		if len(def) > 0 {
+			p.lastSynthetic = true
+		}
 		p.write(def)
 		return
 	}
@@ -95,12 +103,17 @@ func (p *printer) printToken(t *token.Token, def []byte) {
 }
 
 // writeToken writes the text of a token. A token that carries a position was
-// produced by the scanner, so its text is reproduced verbatim: the source
-// already contains whatever open tag or white space it needs. Only tokens
-// without a position (built by hand or by the formatter) go through write()
+// produced by the scanner; where one source token follows another the text is
+// reproduced verbatim, because the source already contains whatever open tag
+// or white space it needs. Tokens without a position (built by hand or by the
+// formatter), and source tokens that follow such a token, go through write()
 // and its automatic "<?php " and space insertion.
 func (p *printer) writeToken(t *token.Token) {
-	if t.Position == nil {
+	fromSource := t.Position != nil
+	verbatim := fromSource && !p.lastSynthetic
+	p.lastSynthetic = !fromSource && len(t.Value) > 0 || p.lastSynthetic && len(t.Value) == 0
+
+	if !verbatim {
 		p.write(t.Value)
 		return
 	}
